@@ -3,6 +3,7 @@ package main
 import (
 	"fmt"
 	"go/ast"
+	"sort"
 	"go/token"
 	"go/types"
 	"strings"
@@ -208,6 +209,7 @@ func checkC03(P *Prog, r *Result) {
 	_ = nCtor
 
 	P.checkCoercedValueStored(r)
+	P.checkCoercionTable(r)
 	P.checkIndexAgreement(r)
 	P.checkStructWritesByField(r)
 	P.checkPointerAlloc(r)
@@ -612,7 +614,14 @@ func (P *Prog) checkIndexAgreement(r *Result) {
 			if R.Dispatch[fn] == "process" && lenRecv != nil {
 				// destination allocation MakeSlice(t, n, n) with n = src.Len()
 				okAlloc := false
-				eachInstr(fn, func(_ *ssa.BasicBlock, _ int, in ssa.Instruction) {
+				allocBlocks := map[*ssa.BasicBlock]bool{}
+				nDestSets := 0
+				for _, w := range P.writeSites(fn) {
+					if w.viaReflect && w.what == "reflect.Set" && !loop.body[w.in.Block()] {
+						nDestSets++
+					}
+				}
+				eachInstr(fn, func(bb *ssa.BasicBlock, _ int, in ssa.Instruction) {
 					c2, ok := in.(*ssa.Call)
 					if !ok {
 						return
@@ -624,11 +633,33 @@ func (P *Prog) checkIndexAgreement(r *Result) {
 						if ok1 && ok2 && callOf(l1).static != nil && callOf(l1).static.Name() == "Len" && callOf(l2).static != nil && callOf(l2).static.Name() == "Len" &&
 							cv(l1.Call.Args[0]) == cv(lenRecv) && cv(l2.Call.Args[0]) == cv(lenRecv) {
 							okAlloc = true
+							allocBlocks[bb] = true
 						}
 					}
 				})
 				if !okAlloc {
 					problems = append(problems, "the destination slice is not allocated with len == cap == source length")
+				} else {
+					// every path into the element loop must perform that allocation, and it must be the only way the destination is set
+					for _, pred := range loop.header.Preds {
+						if loop.body[pred] {
+							continue
+						}
+						if !allocBlocks[pred] {
+							dom := false
+							for ab := range allocBlocks {
+								if ab.Dominates(pred) {
+									dom = true
+								}
+							}
+							if !dom {
+								problems = append(problems, "some path reaches the element loop without allocating a fresh destination slice: elements the schema does not write keep what the destination held before")
+							}
+						}
+					}
+					if nDestSets > 1 {
+						problems = append(problems, fmt.Sprintf("the destination slice is set in %d places before the element loop (expected exactly one fresh allocation)", nDestSets))
+					}
 				}
 			}
 		}
@@ -779,4 +810,242 @@ func (P *Prog) checkPointerAlloc(r *Result) {
 		r.ok("C03/pointer-alloc", fname(fn), P.pos(fn.Pos()), "allocates reflect.New only when the destination pointer is nil")
 	}
 	r.floor("C03/pointer-alloc", 1)
+}
+
+// ---------------------------------------------------------------------
+// C03/coercion-table: which operation each default coercer applies to each
+// input type. The success paths of every coercer are rendered as
+// "<input type> | <value conditions> ⇒ <result>" (3.5) and compared with the
+// table frozen from the documentation. This decides the documented coercion at
+// the level of *which library operation is applied to which input type under
+// which condition*; the semantics of strconv/time/fmt themselves are trusted.
+// ---------------------------------------------------------------------
+
+var coercionTable = map[string][]string{
+	"zog/conf.DefaultCoercers.Bool(func)": {
+		`bool |  ⇒ val.(bool)`,
+		`string | (val.(string) == "on") ⇒ true`,
+		`string | (val.(string) != "on") ∧ (val.(string) == "off") ⇒ false`,
+		`string | (val.(string) != "on") ∧ (val.(string) != "off") ∧ (strconv.ParseBool(val.(string))#1 == nil) ⇒ strconv.ParseBool(val.(string))#0`,
+		`int | (val.(int) == 0) ⇒ false`,
+		`int | (val.(int) != 0) ∧ (val.(int) == 1) ⇒ true`,
+	},
+	"zog/conf.DefaultCoercers.String(func)": {
+		`string |  ⇒ val.(string)`,
+		`any |  ⇒ fmt.Sprintf("%v", [val])`,
+	},
+	"zog/conf.DefaultCoercers.Int(func)": {
+		`int |  ⇒ val.(int)`,
+		`int64 | (int64(int(val.(int64))) == val.(int64)) ⇒ int(val.(int64))`,
+		`int32 |  ⇒ int(val.(int32))`,
+		`string | (strconv.Atoi(val.(string))#1 == nil) ⇒ strconv.Atoi(val.(string))#0`,
+		`float64 | (math.Trunc(val.(float64)) >= MININT) ∧ (math.Trunc(val.(float64)) < -MININT) ⇒ int(math.Trunc(val.(float64)))`,
+		`bool | val.(bool) ⇒ 1`,
+		`bool | !val.(bool) ⇒ 0`,
+	},
+	"zog/conf.DefaultCoercers.Float64(func)": {
+		`int |  ⇒ float64(val.(int))`,
+		`string | (strconv.ParseFloat(val.(string), 64)#1 == nil) ⇒ strconv.ParseFloat(val.(string), 64)#0`,
+		`float64 |  ⇒ val.(float64)`,
+		`float32 |  ⇒ float64(val.(float32))`,
+	},
+	"zog/conf.DefaultCoercers.Slice(func)": {
+		`any | (reflect.TypeOf(val).Kind() == 23) ⇒ val`,
+		`any | (reflect.TypeOf(val).Kind() != 23) ⇒ [val]`,
+	},
+	"zog/conf.TimeCoercerFactory$1": {
+		`time.Time |  ⇒ val.(time.Time)`,
+		`string | (call $0(val.(string))#1 == nil) ⇒ call $0(val.(string))#0`,
+		`int |  ⇒ time.Unix(int64(val.(int)), 0)`,
+		`int64 |  ⇒ time.Unix(val.(int64), 0)`,
+	},
+	"zog/conf.init$TIME-DEFAULT-FORMAT": {
+		`any |  ⇒ time.Parse("2006-01-02T15:04:05Z07:00", val)`,
+	},
+	"(zog.TimeFunc).Format$1": {
+		`any |  ⇒ time.Parse($0, val)`,
+	},
+	"zog.Int32$1": {
+		`int | (call @Coercers.Int(val)#1 == nil) ∧ (call @Coercers.Int(val)#0.(int) >= -2147483648) ∧ (call @Coercers.Int(val)#0.(int) <= 2147483647) ⇒ int32(call @Coercers.Int(val)#0.(int))`,
+		`any | (call @Coercers.Int(val)#1 == nil) ⇒ call @Coercers.Int(val)#0`,
+	},
+	"zog.Int64$1": {
+		`int | (call @Coercers.Int(val)#1 == nil) ⇒ int64(call @Coercers.Int(val)#0.(int))`,
+		`any | (call @Coercers.Int(val)#1 == nil) ⇒ call @Coercers.Int(val)#0`,
+	},
+	"zog.Float32$1": {
+		`float64 | (call @Coercers.Float64(val)#1 == nil) ∧ (call @Coercers.Float64(val)#0.(float64) <= 340282346638528859811704183484516925440) ∧ (call @Coercers.Float64(val)#0.(float64) >= -340282346638528859811704183484516925440) ⇒ float32(call @Coercers.Float64(val)#0.(float64))`,
+		`any | (call @Coercers.Float64(val)#1 == nil) ⇒ call @Coercers.Float64(val)#0`,
+	},
+}
+
+// coercionRows renders the success paths of a coercer.
+func (P *Prog) coercionRows(fn *ssa.Function) ([]string, []string) {
+	sh := P.predicateShape(fn)
+	if len(sh.problems) > 0 {
+		return nil, sh.problems
+	}
+	var rows []string
+	for _, p := range sh.paths {
+		ret := p.ret
+		if strings.HasPrefix(ret, "(nil, ") {
+			continue // error path
+		}
+		val := ret
+		if strings.HasPrefix(ret, "(") && strings.HasSuffix(ret, "#1)") {
+			// `return f(x)` passing a (value, error) pair through
+			inner := strings.TrimSuffix(strings.TrimPrefix(ret, "("), "#1)")
+			if i := strings.Index(inner, "#0, "); i >= 0 && inner[:i] == inner[i+4:] {
+				val = inner[:i]
+			}
+		} else if strings.HasPrefix(ret, "(") && strings.HasSuffix(ret, ", nil)") {
+			val = strings.TrimSuffix(strings.TrimPrefix(ret, "("), ", nil)")
+		} else if strings.HasPrefix(ret, "(nil, ") {
+			continue
+		}
+		typ := "any"
+		var conds []string
+		for _, a := range p.conds {
+			if strings.HasPrefix(a, "!ok(") {
+				continue
+			}
+			if strings.HasPrefix(a, "ok(") {
+				// ok(x.(T)) : the input type is the last positive assertion
+				inner := strings.TrimSuffix(strings.TrimPrefix(a, "ok("), ")")
+				if i := strings.LastIndex(inner, ".("); i >= 0 {
+					typ = strings.TrimSuffix(inner[i+2:], ")")
+				}
+				continue
+			}
+			conds = append(conds, a)
+		}
+		rows = append(rows, fmt.Sprintf("%s | %s ⇒ %s", typ, strings.Join(conds, " ∧ "), val))
+	}
+	for i := range rows {
+		rows[i] = normaliseCoercionRow(P, rows[i])
+	}
+	sort.Strings(rows)
+	return uniq(rows), nil
+}
+
+func normaliseCoercionRow(P *Prog, s string) string {
+	// variadic argument lists print as an unnamed slice literal
+	s = strings.ReplaceAll(s, "?*ssa.Slice", "[val]")
+	// the platform's int bounds
+	min := "-9223372036854775808"
+	if P.Sizes != nil && P.Sizes.Sizeof(types.Typ[types.Int]) == 4 {
+		min = "-2147483648"
+	}
+	s = strings.ReplaceAll(s, "< "+strings.TrimPrefix(min, "-")+")", "< -MININT)")
+	s = strings.ReplaceAll(s, ">= "+min+")", ">= MININT)")
+	return s
+}
+
+func (P *Prog) checkCoercionTable(r *Result) {
+	// locate the closure passed to TimeCoercerFactory for the default Time coercer
+	find := func(key string) *ssa.Function {
+		if key == "zog/conf.init$TIME-DEFAULT-FORMAT" {
+			var out *ssa.Function
+			for _, fn := range P.Funcs {
+				if fn.Synthetic != "package initializer" || funcPkgPath(fn) != pkgConf {
+					continue
+				}
+				eachInstr(fn, func(_ *ssa.BasicBlock, _ int, in ssa.Instruction) {
+					ci := callOf(in)
+					if ci != nil && ci.static != nil && ci.static.Name() == "TimeCoercerFactory" && len(ci.args()) == 1 {
+						switch a := ci.args()[0].(type) {
+						case *ssa.Function:
+							out = a
+						case *ssa.MakeClosure:
+							out = a.Fn.(*ssa.Function)
+						}
+					}
+				})
+			}
+			return out
+		}
+		return P.fn(key)
+	}
+	for _, key := range sortedKeys(coercionTable) {
+		fn := find(key)
+		c := key
+		if fn == nil {
+			r.undecided("C03/coercion-table", c, "-", "coercer function not found")
+			continue
+		}
+		r.sawFunc(fname(fn))
+		rows, probs := P.coercionRows(fn)
+		if len(probs) > 0 {
+			r.undecided("C03/coercion-table", c, P.pos(fn.Pos()), "coercer has an unrecognised shape: "+strings.Join(probs, "; "))
+			continue
+		}
+		want := append([]string{}, coercionTable[key]...)
+		sort.Strings(want)
+		var missing, extra []string
+		have := map[string]bool{}
+		for _, x := range rows {
+			have[x] = true
+		}
+		wantSet := map[string]bool{}
+		for _, x := range want {
+			wantSet[x] = true
+			if !have[x] {
+				missing = append(missing, "documented but not implemented: "+x)
+			}
+		}
+		for _, x := range rows {
+			if !wantSet[x] {
+				extra = append(extra, "implemented but not documented:  "+x)
+			}
+		}
+		if len(missing)+len(extra) == 0 {
+			r.ok("C03/coercion-table", c, P.pos(fn.Pos()), fmt.Sprintf("%d success path(s) = the documented coercion table", len(rows)), rows...)
+		} else {
+			r.bad("C03/coercion-table", c, P.pos(fn.Pos()), "the coercer does not apply the documented operation to each input type (input type | conditions ⇒ result)", append(missing, extra...)...)
+		}
+	}
+	r.floor("C03/coercion-table", 11)
+
+	P.checkCoercerResultTypes(r, "C03/coercer-result-type")
+}
+
+// checkCoercerResultTypes: every success path of a default coercer returns the
+// documented Go type (the pipeline asserts v.(T) unchecked).
+func (P *Prog) checkCoercerResultTypes(r *Result, rule string) {
+	wantType := map[string]string{
+		"zog/conf.DefaultCoercers.Bool(func)": "bool", "zog/conf.DefaultCoercers.String(func)": "string",
+		"zog/conf.DefaultCoercers.Int(func)": "int", "zog/conf.DefaultCoercers.Float64(func)": "float64",
+		"zog/conf.TimeCoercerFactory$1": "time.Time",
+	}
+	for _, key := range sortedKeys(wantType) {
+		fn := P.fn(key)
+		if fn == nil {
+			continue
+		}
+		var bad []string
+		n := 0
+		eachInstr(fn, func(_ *ssa.BasicBlock, _ int, in ssa.Instruction) {
+			rt, ok := in.(*ssa.Return)
+			if !ok || len(rt.Results) != 2 || !isNilConst(rt.Results[1]) {
+				return
+			}
+			n++
+			v := rt.Results[0]
+			t := ""
+			if mi, ok := v.(*ssa.MakeInterface); ok {
+				t = typeStr(mi.X.Type())
+			} else {
+				t = "interface value of unknown dynamic type (" + shortName(v.String()) + ")"
+			}
+			if t != wantType[key] {
+				bad = append(bad, fmt.Sprintf("returns %s at %s", t, P.ipos(in)))
+			}
+		})
+		if len(bad) > 0 {
+			r.bad(rule, key, P.pos(fn.Pos()), fmt.Sprintf("a success path of the default coercer does not return a %s: the pipeline's `v.(T)` panics or the adapters mis-handle it: %s", wantType[key], strings.Join(bad, "; ")))
+		} else {
+			r.ok(rule, key, P.pos(fn.Pos()), fmt.Sprintf("all %d success returns have static type %s", n, wantType[key]))
+		}
+	}
+	r.floor(rule, 5)
 }
